@@ -14,7 +14,10 @@
    That condition is what C03 states about the scheduler (a task resumes only when all it awaits is
    done); the machine can violate it only through its re-entrancy artifact (a task re-entered through a
    synchronous .value() of a task that awaits it - CPython raises "generator already executing" there),
-   see the counterexample at the end.  History: the first version of this file (against the model of
+   see the counterexample at the end; keep_inert_no_reentry proves that runs WITHOUT re-entrant resumes
+   satisfy it (invariant V: no task has two open activations, and every open task - running, being
+   resumed, or suspended inside value() - has all its stored dependencies computed; [shr]: every helper
+   leaves a task's stored dependencies alone or empties them).  History: the first version of this file (against the model of
    the unrepaired code, which branched on the whole stored list) refuted the inertness statement with
    the program [cxk_root]; that witness reproduced on the implementation and was repaired. *)
 From Asynq Require Import Machine Seq proofs.ProgProofs proofs.MachineFrame proofs.MachineC05 proofs.MachineC08
@@ -755,6 +758,442 @@ Corollary keep_preserves_success_guarded P P' fuel ps os e :
   fst (run_case P fuel ps) = os -> ~ In (Some (Err e)) os -> ~ In (Some (Err e)) (fst (run_case P' fuel ps)).
 Proof. intros K G E N. rewrite <- (keep_inert_guarded P P' fuel ps K G), E. exact N. Qed.
 
+(* ------------------------------------------------------------------ runs without re-entrant resumes *)
+(* The hypothesis of keep_inert_guarded can fail only through re-entrancy: a resume of t while a frame
+   "body of t inside value()" is on the stack (CPython: "generator already executing"). *)
+Definition fvin (t : fid) (fr : list frame) : bool :=
+  existsb (fun f => match f with FValue t' _ => fid_eqb t' t | _ => false end) fr.
+Definition reentry (c : cfg) : bool :=
+  match c_mode c with MResume t => fvin t (c_frames c) | _ => false end.
+Definition no_reentry (c : cfg) : bool := negb (reentry c).
+
+(* -- every helper leaves the stored dependencies of a task alone or empties them -- *)
+Lemma get_task_put t x f s :
+  get_task t (put x f s) = if fid_eqb t x then match f with mkFut _ (KTask tk) => Some tk | _ => None end
+                           else get_task t s.
+Proof.
+  unfold get_task. destruct (fid_eqb t x) eqn:E.
+  - apply fid_eqb_eq in E. subst x. rewrite get_put_same. destruct f as [o [tk| | |]]; reflexivity.
+  - assert (N : t <> x) by (intros ->; rewrite fid_eqb_refl in E; discriminate).
+    rewrite get_put_other by exact N. reflexivity.
+Qed.
+
+Definition shr (t : fid) (s s' : st) : Prop :=
+  forall tk', get_task t s' = Some tk' ->
+    tk_deps tk' = [] \/ exists tk, get_task t s = Some tk /\ tk_deps tk' = tk_deps tk.
+
+Lemma shr_refl t s : shr t s s.
+Proof. intros tk' G. right. exists tk'. auto. Qed.
+
+Lemma shr_trans t a b c : shr t a b -> shr t b c -> shr t a c.
+Proof.
+  intros A B tk' G. destruct (B tk' G) as [E|(tk & Gb & E)]; [left; exact E|].
+  destruct (A tk Gb) as [E0|(tk0 & Ga & E0)]; [left; congruence|]. right. exists tk0. split; [exact Ga|congruence].
+Qed.
+
+Lemma shr_view t s s' : heap s' = heap s -> shr t s s'.
+Proof. intros H tk' G. right. exists tk'. split; [|reflexivity]. unfold get_task, get in *. rewrite H in G. exact G. Qed.
+
+Lemma shr_set_task t x tk tk' s :
+  get_task x s = Some tk -> tk_deps tk' = tk_deps tk \/ tk_deps tk' = [] -> shr t s (set_task x tk' s).
+Proof.
+  intros G E tk2 G2. apply get_task_some in G as (out & G). unfold set_task in G2. rewrite G in G2.
+  rewrite get_task_put in G2. destruct (fid_eqb t x) eqn:Et.
+  - apply fid_eqb_eq in Et. subst x. inversion G2; subst tk2. destruct E as [E|E]; [|left; exact E].
+    right. exists tk. split; [|exact E]. apply get_task_some. exists out. exact G.
+  - right. exists tk2. auto.
+Qed.
+
+Lemma shr_set_task' t x out tk tk' s :
+  get x s = Some (mkFut out (KTask tk)) -> tk_deps tk' = tk_deps tk \/ tk_deps tk' = [] -> shr t s (set_task x tk' s).
+Proof. intros G. apply shr_set_task. apply get_task_some. exists out. exact G. Qed.
+
+Lemma shr_set_task_ne t x tk' s : t <> x -> shr t s (set_task x tk' s).
+Proof.
+  intros N tk2 G2. unfold set_task in G2. destruct (get x s) as [f|]; [|right; exists tk2; auto].
+  rewrite get_task_put in G2. destruct (fid_eqb t x) eqn:E; [apply fid_eqb_eq in E; contradiction|].
+  right. exists tk2. auto.
+Qed.
+
+Lemma shr_put_nil t x o tk' s : tk_deps tk' = [] -> shr t s (put x (mkFut o (KTask tk')) s).
+Proof.
+  intros E tk2 G2. rewrite get_task_put in G2. destruct (fid_eqb t x).
+  - inversion G2; subst tk2. left. exact E.
+  - right. exists tk2. auto.
+Qed.
+
+Lemma shr_put_nontask t x f s : (forall tk, f_kind f <> KTask tk) -> shr t s (put x f s).
+Proof.
+  intros N tk2 G2. rewrite get_task_put in G2. destruct (fid_eqb t x).
+  - destruct f as [o [tk| | |]]; try discriminate. destruct (N tk eq_refl).
+  - right. exists tk2. auto.
+Qed.
+
+Lemma shr_put_keep t x f f' s : get x s = Some f -> f_kind f' = f_kind f -> shr t s (put x f' s).
+Proof.
+  intros G K tk2 G2. rewrite get_task_put in G2. destruct (fid_eqb t x) eqn:E.
+  - apply fid_eqb_eq in E. subst x. right. exists tk2. split; [|reflexivity].
+    unfold get_task. rewrite G. destruct f as [o k], f' as [o' k']. cbn in K. subst k'. exact G2.
+  - right. exists tk2. auto.
+Qed.
+
+Ltac sv := solve [apply shr_view; reflexivity].
+
+Lemma shr_enter_ctx t x c s : shr t s (enter_ctx x c s).
+Proof.
+  unfold enter_ctx.
+  assert (H : shr t s (match get_task x s with
+                       | Some tk => set_task x (tk_with_ctxs tk (tk_ctxs tk ++ [c]) (tk_cact tk)) s
+                       | None => s end)).
+  { destruct (get_task x s) as [tk|] eqn:G; [|apply shr_refl]. apply (shr_set_task t x tk); [exact G|left; reflexivity]. }
+  eapply shr_trans; [exact H|]. destruct c; sv.
+Qed.
+
+Lemma shr_exit_ctx t x c s : shr t s (exit_ctx x c s).
+Proof.
+  unfold exit_ctx.
+  assert (H : shr t s (match get_task x s with
+                       | Some tk => set_task x (tk_with_ctxs tk (remove_ctx c (tk_ctxs tk)) (tk_cact tk)) s
+                       | None => s end)).
+  { destruct (get_task x s) as [tk|] eqn:G; [|apply shr_refl]. apply (shr_set_task t x tk); [exact G|left; reflexivity]. }
+  eapply shr_trans; [exact H|]. apply shr_view. destruct c; reflexivity.
+Qed.
+
+Lemma shr_fold {X} t (f : st -> X -> st) l : (forall s x, shr t s (f s x)) -> forall s, shr t s (fold_left f l s).
+Proof. intros H. induction l as [|x l IH]; intros s; cbn; [apply shr_refl|]. eapply shr_trans; [apply H|apply IH]. Qed.
+
+Lemma shr_complete_task t x o s : shr t s (complete_task x o s).
+Proof.
+  unfold complete_task. destruct (get_task x s) as [tk|]; [|apply shr_refl].
+  assert (H : shr t s (match tk_gen tk with
+                       | Some _ => fold_left (fun s c => exit_ctx x c s) (rev (tk_ctxs tk)) s
+                       | None => s end)).
+  { destruct (tk_gen tk); [|apply shr_refl]. apply shr_fold. intros. apply shr_exit_ctx. }
+  destruct (get_task x _) as [tk1|]; [|exact H]. eapply shr_trans; [exact H|].
+  match goal with |- shr t ?a (emit ?e (put ?h (mkFut ?o0 (KTask ?tk')) ?z)) =>
+    apply (shr_trans t a (put h (mkFut o0 (KTask tk')) z)); [apply shr_put_nil; reflexivity|apply shr_view; reflexivity] end.
+Qed.
+
+Lemma shr_accept_error t x e s : shr t s (accept_error x e s).
+Proof. unfold accept_error. destruct (computed x s); [apply shr_refl|apply shr_complete_task]. Qed.
+
+Lemma heap_resume1 x c s : heap (fst (resume1 x c s)) = heap s.
+Proof. unfold resume1. destruct c as [cid f|cid|cid var v]; [destruct f| |]; cbn [fst]; t_regs. Qed.
+Lemma heap_pause1 x c s : heap (fst (pause1 x c s)) = heap s.
+Proof. unfold pause1. destruct c as [cid f|cid|cid var v]; [destruct f| |]; cbn [fst]; t_regs. Qed.
+
+Lemma shr_fold_pair {X E} t (f : st * E -> X -> st * E) l :
+  (forall a x, shr t (fst a) (fst (f a x))) -> forall a, shr t (fst a) (fst (fold_left f l a)).
+Proof. intros H. induction l as [|x l IH]; intros a; cbn; [apply shr_refl|]. eapply shr_trans; [apply H|apply IH]. Qed.
+
+Lemma shr_resume_contexts t x s : shr t s (resume_contexts x s).
+Proof.
+  unfold resume_contexts. destruct (get_task x s) as [tk|] eqn:G; [|apply shr_refl].
+  destruct (tk_cact tk); [apply shr_refl|].
+  match goal with |- context [fold_left ?f ?l ?a] =>
+    assert (H2 : shr t s (fst (fold_left f l a))) end.
+  { match goal with |- shr t s (fst (fold_left ?f ?l (?s0, ?e))) =>
+      apply (shr_trans t s s0); [apply (shr_set_task t x tk); [exact G|left; reflexivity]
+                                | apply (shr_fold_pair t f l) with (a := (s0, e))] end.
+    intros [s0 e0] c. cbn [fst]. pose proof (heap_resume1 x c s0) as Rr. destruct (resume1 x c s0). cbn [fst] in *.
+    apply shr_view. exact Rr. }
+  match goal with |- context [fold_left ?f ?l ?a] => destruct (fold_left f l a) as [s1 [e|]] end;
+    cbn [fst] in H2; [eapply shr_trans; [exact H2|apply shr_accept_error]|exact H2].
+Qed.
+
+Lemma shr_pause_contexts t x s : shr t s (pause_contexts x s).
+Proof.
+  unfold pause_contexts. destruct (get_task x s) as [tk|] eqn:G; [|apply shr_refl].
+  destruct (negb (tk_cact tk)); [apply shr_refl|].
+  match goal with |- context [fold_left ?f ?l ?a] =>
+    assert (H2 : shr t s (fst (fold_left f l a))) end.
+  { match goal with |- shr t s (fst (fold_left ?f ?l (?s0, ?e))) =>
+      apply (shr_trans t s s0); [apply (shr_set_task t x tk); [exact G|left; reflexivity]
+                                | apply (shr_fold_pair t f l) with (a := (s0, e))] end.
+    intros [s0 e0] c. cbn [fst]. pose proof (heap_pause1 x c s0) as Rr. destruct (pause1 x c s0). cbn [fst] in *.
+    apply shr_view. exact Rr. }
+  match goal with |- context [fold_left ?f ?l ?a] => destruct (fold_left f l a) as [s1 [e|]] end;
+    cbn [fst] in H2; [eapply shr_trans; [exact H2|apply shr_accept_error]|exact H2].
+Qed.
+
+Lemma shr_create t p f s : shr t s (snd (create p f s)).
+Proof.
+  unfold create, alloc. cbn zeta. destruct f; cbn [snd];
+    (eapply shr_trans; [apply shr_view with (s' := with_top_next s (top_next s + 1)%Z); reflexivity|]);
+    try (apply shr_put_nil; reflexivity); try (apply shr_put_nontask; intros tk; discriminate).
+Qed.
+
+Lemma shr_inst t p y : forall s, shr t s (snd (inst p y s)).
+Proof.
+  induction y as [| a | l IH | l IH | l IH] using ystruct_ind2; intros s.
+  - apply shr_refl.
+  - destruct a as [f|h|]; simpl; try apply shr_refl.
+    pose proof (shr_create t p f s) as H. destruct (create p f s). exact H.
+  - simpl. match goal with |- context [(?g l s)] => set (go := g) end.
+    assert (H : forall s, shr t s (snd (go l s))).
+    { clear s. induction IH as [|x l Hx Hl IHl]; intros s; [apply shr_refl|]. simpl.
+      specialize (Hx s). destruct (inst p x s) as [x' s1]. cbn [snd] in Hx.
+      specialize (IHl s1). destruct (go l s1) as [l'' s2]. cbn [snd] in *. eapply shr_trans; eauto. }
+    specialize (H s). destruct (go l s). exact H.
+  - simpl. match goal with |- context [(?g l s)] => set (go := g) end.
+    assert (H : forall s, shr t s (snd (go l s))).
+    { clear s. induction IH as [|x l Hx Hl IHl]; intros s; [apply shr_refl|]. simpl.
+      specialize (Hx s). destruct (inst p x s) as [x' s1]. cbn [snd] in Hx.
+      specialize (IHl s1). destruct (go l s1) as [l'' s2]. cbn [snd] in *. eapply shr_trans; eauto. }
+    specialize (H s). destruct (go l s). exact H.
+  - simpl. match goal with |- context [(?g l s)] => set (go := g) end.
+    assert (H : forall s, shr t s (snd (go l s))).
+    { clear s. induction IH as [|[k x] l Hx Hl IHl]; intros s; [apply shr_refl|]. simpl. simpl in Hx.
+      specialize (Hx s). destruct (inst p x s) as [x' s1]. cbn [snd] in Hx.
+      specialize (IHl s1). destruct (go l s1) as [l'' s2]. cbn [snd] in *. eapply shr_trans; eauto. }
+    specialize (H s). destruct (go l s). exact H.
+Qed.
+
+Lemma shr_complete_item t h o s : shr t s (complete_item h o s).
+Proof.
+  unfold complete_item. destruct (get h s) as [f|] eqn:G; [|apply shr_refl].
+  destruct (f_out f); [apply shr_refl|].
+  match goal with |- shr t s (emit ?e (put h ?f' s)) =>
+    apply (shr_trans t s (put h f' s)); [apply (shr_put_keep t h f); [exact G|reflexivity]|sv] end.
+Qed.
+
+Lemma shr_flush_body t items : forall i ra s, shr t s (fst (flush_body items i ra s)).
+Proof.
+  induction items as [|h rest IH]; intros i ra s; simpl.
+  - destruct ra as [[k e]|]; apply shr_refl.
+  - destruct ra as [[k e]|].
+    + destruct (Z.eqb i k); [apply shr_refl|]. eapply shr_trans; [|apply IH].
+      destruct (get h s) as [[o [ | kind idx key [v|e'|] | | ]]|]; try apply shr_refl; apply shr_complete_item.
+    + eapply shr_trans; [|apply IH].
+      destruct (get h s) as [[o [ | kind idx key [v|e'|] | | ]]|]; try apply shr_refl; apply shr_complete_item.
+Qed.
+
+Lemma shr_flush_batch t P k s : shr t s (flush_batch P k s).
+Proof.
+  unfold flush_batch. destruct (b_done (get_batch k s)); [apply shr_refl|].
+  match goal with |- context [flush_body ?a ?b ?c ?d] =>
+    pose proof (shr_flush_body t a b c d) as H; destruct (flush_body a b c d) as [s2 err] end.
+  cbn [fst] in H. eapply shr_trans; [|sv].
+  eapply shr_trans; [|apply shr_fold; intros; apply shr_complete_item].
+  eapply shr_trans; [|exact H]. apply shr_view. destruct (Z.eqb _ _); reflexivity.
+Qed.
+
+Lemma heap_select P s : heap (snd (select P s)) = heap s.
+Proof.
+  unfold select. destruct (filter _ (sb s)); [reflexivity|].
+  cbn [oracle with_sb]. destruct (oracle s); [reflexivity|].
+  destruct (existsb _ _ && _); reflexivity.
+Qed.
+
+Lemma shr_continue_with_batch t P s : shr t s (continue_with_batch P s).
+Proof.
+  unfold continue_with_batch. pose proof (heap_select P s) as Q.
+  destruct (select P s) as [[k|] s1]; cbn [snd] in Q; [|apply shr_view; exact Q].
+  eapply shr_trans; [|sv]. eapply shr_trans; [|apply shr_flush_batch]. apply shr_view. exact Q.
+Qed.
+
+Lemma shr_schedule_batch t k s : shr t s (schedule_batch k s).
+Proof. unfold schedule_batch. destruct (b_done _); [apply shr_refl|]. destruct (existsb _ _); sv. Qed.
+
+Ltac sh :=
+  repeat match goal with
+  | |- shr _ ?s ?s => apply shr_refl
+  | |- shr _ _ _ => solve [apply shr_view; reflexivity]
+  | |- shr _ _ _ => eassumption
+  | |- shr ?t ?a (emit _ ?X) => apply (shr_trans t a X); [|sv]
+  | |- shr ?t ?a (pop_task ?X) => apply (shr_trans t a X); [|sv]
+  | |- shr ?t ?a (with_tasks ?X _) => apply (shr_trans t a X); [|sv]
+  | |- shr ?t ?a (with_active ?X _) => apply (shr_trans t a X); [|sv]
+  | |- shr ?t ?a (reset_sched ?X) => apply (shr_trans t a X); [|sv]
+  | |- shr ?t ?a (set_task ?x ?tk ?X) =>
+      apply (shr_trans t a X); [|first [eapply shr_set_task; [eassumption|left; reflexivity]
+                                        |eapply shr_set_task'; [eassumption|left; reflexivity]]]
+  | |- shr ?t ?a (put ?x (mkFut (Some ?o) (KLazy ?o)) ?X) =>
+      apply (shr_trans t a X); [|eapply shr_put_keep; [eassumption|reflexivity]]
+  | |- shr ?t ?a (resume_contexts ?x ?X) => apply (shr_trans t a X); [|apply shr_resume_contexts]
+  | |- shr ?t ?a (pause_contexts ?x ?X) => apply (shr_trans t a X); [|apply shr_pause_contexts]
+  | |- shr ?t ?a (complete_task ?x ?o ?X) => apply (shr_trans t a X); [|apply shr_complete_task]
+  | |- shr ?t ?a (accept_error ?x ?e ?X) => apply (shr_trans t a X); [|apply shr_accept_error]
+  | |- shr ?t ?a (enter_ctx ?x ?c ?X) => apply (shr_trans t a X); [|apply shr_enter_ctx]
+  | |- shr ?t ?a (exit_ctx ?x ?c ?X) => apply (shr_trans t a X); [|apply shr_exit_ctx]
+  | |- shr ?t ?a (schedule_batch ?k ?X) => apply (shr_trans t a X); [|apply shr_schedule_batch]
+  | |- shr ?t ?a (flush_batch ?P ?k ?X) => apply (shr_trans t a X); [|apply shr_flush_batch]
+  | |- shr ?t ?a (continue_with_batch ?P ?X) => apply (shr_trans t a X); [|apply shr_continue_with_batch]
+  end.
+
+(* every transition except a Yield of t itself leaves the stored dependencies of t alone or empties them *)
+Theorem step_shr P c t : (forall y k, c_mode c <> MRun t (Yield y k)) -> shr t (c_st c) (c_st (step P c)).
+Proof.
+  destruct c as [m fr s]. cbn [c_st c_mode]. intros NY.
+  destruct m as [h| | | |t0|t0 p| |o|e|o|]; cbn [step c_mode c_frames c_st];
+    try (destr_eq; sh; fail).
+  - (* MResume *)
+    destruct (get_task t0 s) as [tk|] eqn:G; cbn [c_st]; [|apply shr_refl].
+    destruct (tk_gen tk); [|destr_eq; sh].
+    cbn [c_st]. apply (shr_trans t s (set_task t0 (mkTask (Some p) YNone (if p_keep P then tk_deps tk else []) (tk_ctxs tk)
+                                                     (tk_cact tk) (tk_ds tk) (tk_iter tk + 1)%Z (tk_next tk)) s)); [|sv].
+    apply (shr_set_task t t0 tk); [exact G|]. cbn [tk_deps]. destruct (p_keep P); auto.
+  - (* MRun *)
+    destruct p as [v|v|e|y k|f k|h k|cx k|cx k|var k|k]; cbv beta iota zeta; cbn [c_st];
+      try (destr_eq; sh; fail).
+    + pose proof (shr_inst t t0 y s) as Qi. destruct (inst t0 y s) as [y' s1]. cbn [snd] in Qi.
+      destruct (get_task t0 s1) as [tk|] eqn:G; cbn [c_st]; [|exact Qi].
+      assert (N : t <> t0) by (intros ->; exact (NY y k eq_refl)).
+      destruct (futs (extract y')); cbn [c_st]; (eapply shr_trans; [exact Qi|apply shr_set_task_ne; exact N]).
+    + pose proof (shr_create t t0 f s) as Qi. destruct (create t0 f s) as [h s1]. cbn [snd c_st] in *. exact Qi.
+Qed.
+
+Lemma step_le P c : dom_ok (c_st c) -> le (c_st c) (c_st (step P c)).
+Proof.
+  intros D. destruct (emits c) eqn:E; [|apply le_calm; [exact D|apply step_calm; exact E]].
+  destruct (emits_true c E) as (t & tk & k & Hm & G & Hk). destruct c as [m fr s]. cbn [c_mode c_st] in *. subst m.
+  cbn [step c_mode c_frames c_st]. rewrite G, Hk. cbn [c_st]. intros d Hd.
+  rewrite (resume_computed s t tk _ _ G d). exact Hd.
+Qed.
+
+Definition allc (t : fid) (s : st) : Prop :=
+  forall tk, get_task t s = Some tk -> forall d, In d (tk_deps tk) -> computed d s = true.
+
+Lemma allc_shr t s s' : shr t s s' -> le s s' -> allc t s -> allc t s'.
+Proof.
+  intros S L A tk' G d Hd. destruct (S tk' G) as [E|(tk & G0 & E)]; [rewrite E in Hd; destruct Hd|].
+  rewrite E in Hd. apply L. exact (A tk G0 d Hd).
+Qed.
+
+(* the frame stack never holds two "body of t inside value()" frames for the same t, and the running
+   task has none *)
+Fixpoint fv_ok (fr : list frame) : Prop :=
+  match fr with
+  | [] => True
+  | FValue t _ :: fr' => fvin t fr' = false /\ fv_ok fr'
+  | _ :: fr' => fv_ok fr'
+  end.
+
+Definition isopen (t : fid) (c : cfg) : Prop :=
+  (exists p, c_mode c = MRun t p) \/ c_mode c = MResume t \/ fvin t (c_frames c) = true.
+
+Definition V (c : cfg) : Prop :=
+  fv_ok (c_frames c) /\ (forall t p, c_mode c = MRun t p -> fvin t (c_frames c) = false) /\
+  (forall t, isopen t c -> allc t (c_st c)).
+
+Lemma fv_step P c :
+  no_reentry c = true -> fv_ok (c_frames c) -> (forall t p, c_mode c = MRun t p -> fvin t (c_frames c) = false) ->
+  fv_ok (c_frames (step P c)) /\ (forall t p, c_mode (step P c) = MRun t p -> fvin t (c_frames (step P c)) = false).
+Proof.
+  destruct c as [m fr s]. unfold no_reentry, reentry. cbn [c_mode c_frames]. intros NR F V2.
+  destruct m as [h| | | |t0|t0 p| |o|e|o|]; cbn [step c_mode c_frames c_st];
+    [ | | | |apply negb_true_iff in NR|pose proof (V2 t0 p eq_refl) as V2'; destruct p; cbv beta iota zeta| | | | | ];
+    repeat dstep; cbn [c_mode c_frames fv_ok] in *;
+    (split; [tauto|intros t1 p1 E1; try discriminate; inversion E1; subst; tauto]).
+Qed.
+
+(* a task that is open after a step was open before it, or was the unblocked task on top of the stack *)
+Lemma open_step P c t : isopen t (step P c) -> isopen t c \/ allc t (c_st c).
+Proof.
+  destruct c as [m fr s]. unfold isopen.
+  destruct m as [h| | | |t0|t0 p| |o|e|o|]; cbn [step c_mode c_frames c_st];
+    [ | | | | |destruct p; cbv beta iota zeta| | | | | ];
+    repeat dstep; cbn [c_mode c_frames c_st]; unfold fvin; cbn [existsb];
+    (intros [(p0 & E)|[E|E]];
+     [ try discriminate; inversion E; subst;
+       first [left; left; eexists; reflexivity | left; right; left; reflexivity
+             | left; right; right; rewrite fid_eqb_refl; reflexivity]
+     | try discriminate; inversion E; subst;
+       first [left; left; eexists; reflexivity | left; right; left; reflexivity | idtac]
+     | cbn [orb] in E |- *;
+       first [ discriminate
+             | left; right; right; assumption
+             | left; right; right; rewrite E; apply orb_true_r
+             | apply orb_true_iff in E as [E|E];
+               [apply fid_eqb_eq in E; subst; left; left; eexists; reflexivity|left; right; right; exact E] ] ]).
+  (* MExecLoop: the unblocked task on top of the stack is about to be resumed *)
+  right. intros tk G d Hd.
+  match goal with
+  | Hg : get t s = Some (mkFut _ (KTask ?tk0)), Hb : is_blocked ?tk0 s = false |- _ =>
+    unfold get_task in G; rewrite Hg in G; inversion G; subst tk; exact (not_blocked_all tk0 s Hb d Hd)
+  end.
+Qed.
+
+Lemma allc_not_blocked t s tk : allc t s -> get_task t s = Some tk -> is_blocked tk s = false.
+Proof.
+  intros A G. unfold is_blocked. destruct (existsb _ (tk_deps tk)) eqn:E; [|reflexivity].
+  apply existsb_exists in E as (d & Hd & Hn). rewrite (A tk G d Hd) in Hn. discriminate.
+Qed.
+
+Theorem V_step P c : dom_ok (c_st c) -> no_reentry c = true -> V c -> V (step P c).
+Proof.
+  intros D NR (F & V2 & V3). destruct (fv_step P c NR F V2) as [F' V2'].
+  split; [exact F'|]. split; [exact V2'|]. intros t O.
+  assert (A : allc t (c_st c)) by (destruct (open_step P c t O) as [O0|A]; [exact (V3 t O0)|exact A]).
+  destruct c as [m fr s]. cbn [c_st c_mode c_frames] in *.
+  assert (Gen : (forall y k, m <> MRun t (Yield y k)) -> allc t (c_st (step P (mkC m fr s)))).
+  { intros NY. apply (allc_shr t s); [apply (step_shr P (mkC m fr s) t NY)|apply (step_le P (mkC m fr s) D)|exact A]. }
+  destruct m as [h| | | |t0|t0 p| |o|e|o|]; try (apply Gen; intros y k; discriminate).
+  destruct p as [v|v|e|y k|f k|h k|cx k|cx k|var k|k]; try (apply Gen; intros y0 k0; discriminate).
+  destruct (fid_eqb t t0) eqn:Et; [|apply Gen; intros y0 k0 E0; inversion E0; subst; rewrite fid_eqb_refl in Et; discriminate].
+  apply fid_eqb_eq in Et. subst t0. clear Gen.
+  (* a Yield of t itself *)
+  pose proof (V2 t _ eq_refl) as NF. revert O. unfold isopen. cbn [step c_mode c_frames c_st].
+  pose proof (shr_inst t t y s) as Si. pose proof (calm_inst t y s) as Ci.
+  destruct (inst t y s) as [y' s1]. cbn [snd] in *.
+  assert (A1 : allc t s1) by (apply (allc_shr t s); [exact Si|apply le_calm; assumption|exact A]).
+  destruct (get_task t s1) as [tk|] eqn:G; [|intros _; exact A1].
+  destruct (futs (extract y')) as [|f0 F0]; cbn [c_mode c_frames c_st].
+  - intros _ tk1 G1 d Hd. apply get_task_some in G as (out & G'). unfold set_task in G1 |- *. rewrite G' in G1 |- *.
+    rewrite get_task_put, fid_eqb_refl in G1. inversion G1; subst tk1. cbn [tk_deps] in Hd. rewrite app_nil_r in Hd.
+    rewrite computed_put. destruct (fid_eqb d t) eqn:Ed.
+    + apply fid_eqb_eq in Ed. subst d. cbn [f_out].
+      assert (C : computed t s1 = true) by (apply (A1 tk); [apply get_task_some; exists out; exact G'|exact Hd]).
+      unfold computed in C. rewrite G' in C. exact C.
+    + apply (A1 tk); [apply get_task_some; exists out; exact G'|exact Hd].
+  - intros [(p0 & E)|[E|E]]; [discriminate|discriminate|]. rewrite NF in E. discriminate.
+Qed.
+
+
+Lemma V_resume_ok c : V c -> resume_ok c = true.
+Proof.
+  intros (_ & _ & V3). unfold resume_ok. destruct (c_mode c) as [h| | | |t|t p| |o|e|o|] eqn:Em; try reflexivity.
+  destruct (get_task t (c_st c)) as [tk|] eqn:G; [|reflexivity].
+  rewrite (allc_not_blocked t (c_st c) tk); [reflexivity| |exact G]. apply V3. right. left. exact Em.
+Qed.
+
+Lemma V_start h s : V (start h s).
+Proof.
+  split; [exact I|]. split; [intros t p E; discriminate|].
+  intros t [(p & E)|[E|E]]; discriminate.
+Qed.
+
+Lemma guarded_no_reentry P n : forall c,
+  RInv (c_st c) -> V c -> guarded no_reentry P n c = true -> guarded resume_ok P n c = true.
+Proof.
+  induction n as [|n IH]; intros c R HV G; [reflexivity|]. cbn [guarded] in *.
+  destruct (is_final (c_mode c)); [reflexivity|]. apply andb_true_iff in G as [NR G].
+  rewrite (V_resume_ok c HV). cbn [andb]. apply IH; [apply RInv_step; exact R| |exact G].
+  apply V_step; [apply RInv_dom; exact R|exact NR|exact HV].
+Qed.
+
+Lemma hist_no_reentry P fuel ps : forall s,
+  RInv s -> hist_guarded no_reentry P fuel ps s = true -> hist_guarded resume_ok P fuel ps s = true.
+Proof.
+  induction ps as [|p ps IH]; intros s R G; [reflexivity|]. cbn [hist_guarded] in *.
+  apply andb_true_iff in G as [G1 G2]. rewrite (IH _ (RInv_run_root P fuel p s R) G2), andb_true_r.
+  apply guarded_no_reentry; [|apply V_start|exact G1].
+  cbn [start c_st]. apply (RInv_calm s); [exact R|apply calm_create].
+Qed.
+
+(* KEEP_DEPENDENCIES is inert on every history without re-entrant resumes *)
+Theorem keep_inert_no_reentry P P' fuel ps :
+  same_but_keep P P' -> hist_guarded no_reentry P fuel ps (st0 P) = true ->
+  run_case P fuel ps = run_case P' fuel ps.
+Proof.
+  intros K G. apply keep_inert_guarded; [exact K|]. apply hist_no_reentry; [apply RInv_st0|exact G].
+Qed.
+
+Corollary keep_preserves_success_no_reentry P P' fuel ps os e :
+  same_but_keep P P' -> hist_guarded no_reentry P fuel ps (st0 P) = true ->
+  fst (run_case P fuel ps) = os -> ~ In (Some (Err e)) os -> ~ In (Some (Err e)) (fst (run_case P' fuel ps)).
+Proof. intros K G E N. rewrite <- (keep_inert_no_reentry P P' fuel ps K G), E. exact N. Qed.
+
 (* ------------------------------------------------------------------ the first witness, on the repaired model *)
 (* MAX_TASK_STACK_SIZE = 2.  Root [0] enters async context 7 and awaits task [1]; [1] awaits a
    ConstFuture, calls [3].value() (the nested loop exceeds the stack limit, the scheduler resets, the
@@ -869,13 +1308,6 @@ Qed.
 (* the witness violates the hypothesis of keep_inert_guarded in both runs (the resume of the outer
    activation of [0] finds [4] stored and uncomputed), and the step sequence up to there contains the
    re-entry: a resume of [0] while a frame "body of [0] inside value()" is on the stack *)
-Definition reentry (c : cfg) : bool :=
-  match c_mode c with
-  | MResume t => existsb (fun f => match f with FValue t' _ => fid_eqb t' t | _ => false end) (c_frames c)
-  | _ => false
-  end.
-Definition no_reentry (c : cfg) : bool := negb (reentry c).
-
 Lemma cxr_not_guarded :
   hist_guarded resume_ok (cxr_P true) 400 [cxr_root] (st0 (cxr_P true)) = false /\
   hist_guarded resume_ok (cxr_P false) 400 [cxr_root] (st0 (cxr_P false)) = false /\
